@@ -345,29 +345,33 @@ theorem forward5_reachC (f : List ℝ → ℝ) (params : PList ℝ) (fn : Fn ℝ
     cases o2 <;> exact ⟨h1.1.trans h2.1, h2.2⟩
 
 theorem probes5_reachC (f : List ℝ → ℝ) (params : PList ℝ) (fn : Fn ℝ) (p : PList ℝ) (value h f3 : ℝ) (hp : PW params p) :
-    ReachC f params fn (probes5 f fn p value h f3).1 := by
+    ReachC f params fn (probes5 f fn p value h f3).1 ∧ PW params (probes5 f fn p value h f3).2.1 := by
   unfold probes5
   simp only []
   have h1 := probe5_reachC f params fn p (value - ofInt 2 * h) hp
   rcases hs1 : probe5 f fn p (value - ofInt 2 * h) with ⟨fn1, p1, o1⟩
   rw [hs1] at h1
   cases o1 with
-  | none => exact h1.1.trans (forward5_reachC f params fn1 p1 value h f3 h1.2).1
+  | none =>
+    have h4 := forward5_reachC f params fn1 p1 value h f3 h1.2
+    exact ⟨h1.1.trans h4.1, h4.2⟩
   | some v1 =>
     simp only [] at h1 ⊢
     have h2 := central5_reachC f params fn1 p1 value h v1 f3 h1.2
     rcases hs2 : central5 f fn1 p1 value h v1 f3 with ⟨fn2, p2, o2⟩
     rw [hs2] at h2
     cases o2 with
-    | some d => exact h1.1.trans h2.1
+    | some d => exact ⟨h1.1.trans h2.1, h2.2⟩
     | none =>
       simp only [] at h2 ⊢
       have h3 := backward5_reachC f params fn2 p2 value h f3 h2.2
       rcases hs3 : backward5 f fn2 p2 value h f3 with ⟨fn3, p3, o3⟩
       rw [hs3] at h3
       cases o3 with
-      | some d => exact (h1.1.trans h2.1).trans h3.1
-      | none => exact ((h1.1.trans h2.1).trans h3.1).trans (forward5_reachC f params fn3 p3 value h f3 h3.2).1
+      | some d => exact ⟨(h1.1.trans h2.1).trans h3.1, h3.2⟩
+      | none =>
+        have h4 := forward5_reachC f params fn3 p3 value h f3 h3.2
+        exact ⟨((h1.1.trans h2.1).trans h3.1).trans h4.1, h4.2⟩
 
 theorem step5_reachC (f : List ℝ → ℝ) {params : PList ℝ} (hwf : CallerWF params) (lp : Loop ℝ) (i : Nat) (var : Name) :
     ReachC f params lp.w.fn (step5 f params lp i var).1.w.fn := by
@@ -386,8 +390,14 @@ theorem step5_reachC (f : List ℝ → ℝ) {params : PList ℝ} (hwf : CallerWF
         rcases hs : probes5 f lp.w.fn p value ((one + Scalar.abs value) * lp.w.h) lp.w.f3 with ⟨fn5, p5, o5⟩
         rw [hs] at h5
         cases o5 with
-        | none => exact h5
-        | some d => rcases d with ⟨d1, d2⟩; exact h5
+        | none =>
+          simp only [] at h5 ⊢
+          have hg : ReachC f params lp.w.fn (if decide (p5.length > 1) then fn5.setParameters f (subIdx p5 1) else (fn5, none)).1 := by
+            split
+            · exact ReachC.setp _ (subIdx_PW h5.2 1) h5.1
+            · exact h5.1
+          split <;> exact hg
+        | some d => rcases d with ⟨d1, d2⟩; exact h5.1
 
 theorem loopGo_reachC (f : List ℝ → ℝ) (params : PList ℝ) (step : Loop ℝ → Nat → Name → Loop ℝ × Option Exc)
     (hstep : ∀ lp i var, ReachC f params lp.w.fn (step lp i var).1.w.fn) :
@@ -424,6 +434,11 @@ theorem ReachC.of_setEval {f : List ℝ → ℝ} {params : PList ℝ} {a b b' : 
   have : b' = (setEval f b q x).1 := by rw [he]
   rw [this]; exact h.trans (setEval_reachC f params b q x hq).1
 
+theorem crossFail_reachC (f : List ℝ → ℝ) {params : PList ℝ} (hwf : CallerWF params) (cl : CLoop ℝ) {a : Fn ℝ} (fn : Fn ℝ)
+    (h : ReachC f params a fn) : ReachC f params a (crossFail f params cl fn).1.w.fn := by
+  unfold crossFail
+  exact ReachC.setp _ (PW_of_mem hwf (fun _ hx => hx)) (ReachC.en2 _ (ReachC.en1 _ h))
+
 theorem crossPair_reachC (f : List ℝ → ℝ) {params : PList ℝ} (hwf : CallerWF params) (cl : CLoop ℝ) (i j : Nat) (var1 var2 : Name) :
     ReachC f params cl.w.fn (crossPair f params cl i j var1 var2).1.w.fn := by
   unfold crossPair
@@ -438,31 +453,31 @@ theorem crossPair_reachC (f : List ℝ → ℝ) {params : PList ℝ} (hwf : Call
       have e1 : PWelem params p1 := hp p1 (by simp)
       have er : PW params rest := fun x hx => hp x (by simp [hx])
       split
-      next => exact ReachC.refl _
+      next => exact crossFail_reachC f hwf cl _ (ReachC.refl _)
       next p0a hs0 =>
         have e0a := PWelem_setValue e0 hs0
         split
-        next => exact ReachC.refl _
+        next => exact crossFail_reachC f hwf cl _ (ReachC.refl _)
         next p1a hs1 =>
           have e1a := PWelem_setValue e1 hs1
           have hpw : PW params (p0a :: p1a :: rest) := PW.cons e0a (PW.cons e1a er)
           split
-          next fn1 _ h => exact (ReachC.refl _).of_set hpw h
+          next fn1 _ h => exact crossFail_reachC f hwf cl _ ((ReachC.refl _).of_set hpw h)
           next fn1 h =>
             have r1 : ReachC f params cl.w.fn fn1 := (ReachC.refl _).of_set hpw h
             split
-            next fn2 h2 => exact r1.of_setEval e1a h2
+            next fn2 h2 => exact crossFail_reachC f hwf cl _ (r1.of_setEval e1a h2)
             next fn2 p1b f12 h2 =>
               have r2 : ReachC f params cl.w.fn fn2 := r1.of_setEval e1a h2
               have e1b : PWelem params p1b := by
                 have := (setEval_reachC f params fn1 p1a _ e1a).2 p1b f12 (by rw [h2])
                 exact this
               split
-              next fn3 h3 => exact r2.of_setEval e0a h3
+              next fn3 h3 => exact crossFail_reachC f hwf cl _ (r2.of_setEval e0a h3)
               next fn3 _ f22 h3 =>
                 have r3 : ReachC f params cl.w.fn fn3 := r2.of_setEval e0a h3
                 split
-                next fn4 h4 => exact r3.of_setEval e1b h4
+                next fn4 h4 => exact crossFail_reachC f hwf cl _ (r3.of_setEval e1b h4)
                 next fn4 _ f21 h4 => exact r3.of_setEval e1b h4
     next => exact ReachC.refl _
 
